@@ -104,12 +104,13 @@ type pstate struct {
 	tag       string
 	epoch     map[*types.Var]int // stores to a field passed so far on this path
 	loadEpoch map[ssa.Value]int  // epoch at which a field load executed
+	decided   map[string]Tri     // unknown conditions already decided on this path, by access path
 	tm        *termer
 }
 
 func newPstate(fr *frame) *pstate {
 	ps := &pstate{vals: map[ssa.Value]Tri{}, ints: map[ssa.Value]int64{}, visited: map[*ssa.BasicBlock]int{},
-		epoch: map[*types.Var]int{}, loadEpoch: map[ssa.Value]int{}}
+		epoch: map[*types.Var]int{}, loadEpoch: map[ssa.Value]int{}, decided: map[string]Tri{}}
 	ps.tm = newTermer(fr)
 	ps.tm.tagOf = func(v ssa.Value) int { return ps.loadEpoch[v] }
 	return ps
@@ -132,6 +133,9 @@ func (p *pstate) clone(fr *frame) *pstate {
 	}
 	for k, v := range p.loadEpoch {
 		q.loadEpoch[k] = v
+	}
+	for k, v := range p.decided {
+		q.decided[k] = v
 	}
 	return q
 }
@@ -258,6 +262,20 @@ func (w *Walker) walk(b, pred *ssa.BasicBlock, ps *pstate) {
 			case F:
 				pred, b = b, b.Succs[1]
 			default:
+				// the same pure condition met again on this path takes the branch chosen before
+				ct := w.cur.tm.of(t.Cond)
+				key := ""
+				if pureTerm(ct) {
+					key = ct.String()
+					if d, ok := ps.decided[key]; ok {
+						if d == T {
+							pred, b = b, b.Succs[0]
+						} else {
+							pred, b = b, b.Succs[1]
+						}
+						continue
+					}
+				}
 				if w.why == "" {
 					w.why = fmt.Sprintf("unknown condition %s in %s", w.cur.tm.of(t.Cond), fname(b.Parent()))
 				}
@@ -266,7 +284,12 @@ func (w *Walker) walk(b, pred *ssa.BasicBlock, ps *pstate) {
 					w.over = true
 					return
 				}
-				w.walk(b.Succs[0], b, ps.clone(w.fr))
+				c1 := ps.clone(w.fr)
+				if key != "" {
+					c1.decided[key] = T
+					ps.decided[key] = F
+				}
+				w.walk(b.Succs[0], b, c1)
 				w.cur = ps
 				pred, b = b, b.Succs[1]
 			}
@@ -718,4 +741,28 @@ func splitOffset(t *Term) (*Term, int64) {
 		}
 	}
 	return t, 0
+}
+
+// pureTerm: the value named by the access path cannot change between two evaluations on one path
+// (no calls other than len; field loads carry their store epoch).
+func pureTerm(t *Term) bool {
+	if t == nil {
+		return false
+	}
+	switch t.Kind {
+	case "param", "free", "const", "global":
+		return true
+	case "phi":
+		return true
+	case "field", "index", "len", "mapkey", "mapval", "extract":
+		return pureTerm(t.Base)
+	case "bin", "un":
+		for _, a := range t.Args {
+			if !pureTerm(a) {
+				return false
+			}
+		}
+		return true
+	}
+	return false
 }
